@@ -37,7 +37,7 @@ def records(ctx):
         if k % 7 == 0:
             add('fold', {'s': enc(ff)}, observe(lambda: ff.fold()), 'Spectrum.fold')
             add('unfold', {'s': enc(fs)}, observe(lambda: fs.unfold()), 'Spectrum.unfold')
-        p = [0.0, 1.0, 0.5, rng.random(), rng.random() * 0.1][k % 5]
+        p = [0.0, 1.0, 0.5, rng.random(), rng.random() * 0.1][(k + k // 5) % 5]      # not tied to the mask pattern (k % 5)
         add('misid', {'s': enc(fs), 'p': common.rat(p)}, observe(lambda: Numerics.apply_anc_state_misid(fs, p)), 'Numerics.apply_anc_state_misid')
         if k % 5 == 0:
             g = Numerics.make_anc_state_misid_func(lambda params, ns, pts: fs * params[0])
@@ -93,6 +93,41 @@ def records(ctx):
                         inp['values'] = not (opn == 'floordiv' or (opn == 'pow' and (fb is not None or mode == 'refl')))
                         recs.append({'id': 'arith-%d' % next(nid), 'op': 'arith', 'in': inp, 'out': out,
                                      'site': 'Spectrum.__%s%s__' % ({'plain': '', 'refl': 'r', 'inplace': 'i'}[mode], opn)})
+    # right operands that are not spectra: a plain numpy masked array (its mask must enter the result like a spectrum's), a
+    # plain ndarray; binary, reflected and in-place forms (own RNG)
+    r4 = random.Random(ctx.seed + 910)
+    for rep in range(1 if ctx.quick else 6):
+        for opn in ('add', 'sub', 'mul', 'div'):
+            for kind in ('masked_array', 'ndarray'):
+                for mode in ('plain', 'refl', 'inplace'):
+                    ndim = r4.choice([1, 2, 3])
+                    sh = rand_shape(r4, ndim, 2, 5)
+                    fa = r4.random() < 0.5
+                    a = rand_spectrum(r4, sh, folded=fa, labels=rand_labels(r4, ndim), integer=False, mask_mode=r4.choice(['corners', 'single']))
+                    a.data[a.data == 0] = 1.5
+                    bs = rand_spectrum(r4, sh, folded=fa, labels=None, integer=False, mask_mode='random' if kind == 'masked_array' else 'none')
+                    bs.data[bs.data == 0] = 2.5
+                    if kind == 'masked_array':
+                        b = np.ma.masked_array(np.array(bs.data), mask=np.array(np.ma.getmaskarray(bs)))
+                    else:
+                        b = np.array(bs.data)
+                    eb = enc(bs)
+                    eb['m'] = [bool(x) for x in np.ma.getmaskarray(b).ravel()]
+                    eb['f'] = bool(a.folded)          # a plain array carries no folding status: nothing to refuse
+                    eb['ids'] = []
+                    inp = {'a': enc(a), 'b': eb, 'op': opn, 'refl': mode == 'refl', 'values': True, 'operand': kind}
+                    if mode == 'plain':
+                        out = observe(lambda: ops[opn](a, b))
+                    elif mode == 'refl':
+                        out = observe(lambda: getattr(a, '__r%s__' % {'add': 'add', 'sub': 'sub', 'mul': 'mul', 'div': 'truediv'}[opn])(b))
+                    else:
+                        def f():
+                            x = a.copy()
+                            x = iops[opn](x, b)
+                            return x
+                        out = observe(f)
+                    recs.append({'id': 'arith-%d' % next(nid), 'op': 'arith', 'in': inp, 'out': out,
+                                 'site': 'Spectrum.__%s%s__[%s operand]' % ({'plain': '', 'refl': 'r', 'inplace': 'i'}[mode], opn, kind)})
     # unary operators, slicing and likelihood keep the folding status, mask and labels
     from dadi import Inference
     for k in range(20 if ctx.quick else 120):
@@ -116,11 +151,54 @@ def records(ctx):
             except Exception as e:
                 out = {'f': 'raised ' + type(e).__name__}
             recs.append({'id': 'keep-%d' % next(nid), 'op': 'keep', 'in': {'s': enc(a), 'what': name}, 'out': out, 'site': 'Spectrum.' + name})
+    # misidentification at the end points p = 0 and p = 1, given as int / float / numpy scalar, on masks that are not
+    # mirror-symmetric: the result's mask is the union with the mirrored mask for every p of the statement's [0,1]
+    r3 = random.Random(ctx.seed + 909)
+    for k, p in enumerate([0, 0.0, np.float64(0.0), 1, 1.0, np.float64(1.0), np.int64(0), np.float32(0.5)]):
+        ndim = [1, 2, 3][k % 3]
+        sh = rand_shape(r3, ndim, 2, {1: 10, 2: 6, 3: 4}[ndim])
+        fs = rand_spectrum(r3, sh, folded=False, labels=rand_labels(r3, ndim), mask_mode=['single', 'random'][k % 2])
+        if ndim == 1:
+            fs.mask[1] = True           # singletons masked, the n-1 class kept
+            fs.mask[-2] = False
+        add('misid', {'s': enc(fs), 'p': common.rat(float(p))}, observe(lambda: Numerics.apply_anc_state_misid(fs, p)), 'Numerics.apply_anc_state_misid')
+    # likelihood evaluation, residuals and scaling leave BOTH operands as they were (values, masks, folding, labels), also
+    # when model and data carry different masks; in-place operators with a plain masked array as right operand
+    for k in range(8 if ctx.quick else 48):
+        ndim = [1, 2, 3][k % 3]
+        sh = rand_shape(r3, ndim, 2, 5)
+        f = (k % 2 == 0)
+        for attempt in range(200):     # at least one jointly unmasked entry with data (an all-masked comparison is degenerate, not the property's subject)
+            data = rand_spectrum(r3, sh, folded=f, labels=rand_labels(r3, ndim), integer=True, mask_mode=['single', 'random', 'corners', 'none'][k % 4])
+            model = rand_spectrum(r3, sh, folded=f, labels=data.pop_ids, integer=False, mask_mode=['random', 'corners', 'single', 'random'][k % 4])
+            model.data[model.data == 0] = 0.7
+            joint = ~(np.ma.getmaskarray(data) | np.ma.getmaskarray(model))
+            if joint.sum() >= 1 and (np.asarray(data.data)[joint] > 0).sum() >= 1:
+                break
+            sh = rand_shape(r3, ndim, 3, 8)
+        else:
+            continue
+        for name, fn in (('ll', lambda: Inference.ll(model, data)), ('ll_multinom', lambda: Inference.ll_multinom(model, data)),
+                         ('optimal_sfs_scaling', lambda: Inference.optimal_sfs_scaling(model, data)),
+                         ('optimally_scaled_sfs', lambda: Inference.optimally_scaled_sfs(model, data)),
+                         ('linear_Poisson_residual', lambda: Inference.linear_Poisson_residual(model, data)),
+                         ('Anscombe_Poisson_residual', lambda: Inference.Anscombe_Poisson_residual(model, data)),
+                         ('ll_per_bin', lambda: Inference.ll_per_bin(model, data))):
+            bm, bd = enc(model), enc(data)
+            try:
+                fn()
+                om, od = {'s': bm, 't': enc(model)}, {'s': bd, 't': enc(data)}
+            except Exception as e:
+                om = od = {'raised': type(e).__name__}
+            recs.append({'id': 'unchanged-%d' % next(nid), 'op': 'unchanged', 'in': {'law': 'ModelUnchangedByLikelihood', 'what': name}, 'out': om, 'site': 'Inference.' + name})
+            recs.append({'id': 'unchanged-%d' % next(nid), 'op': 'unchanged', 'in': {'law': 'DataUnchangedByLikelihood', 'what': name}, 'out': od, 'site': 'Inference.' + name})
     return recs
 
 
 def nontrivial(r):
     i = r['in']
+    if r['op'] == 'unchanged':
+        return ('unchanged', r['site'], i['law'], tuple(r['out'].get('s', {}).get('sh', [])))
     if r['op'] == 'arith':
         return (r['site'], i['a']['f'], i['b']['f'] if 'b' in i else 'scalar', tuple(i['a']['sh']))
     s = i['s']
